@@ -21,10 +21,7 @@ def build_scripts(ctx, scale):
     for c in pool.all[:20 * scale]:
         lines += ['el.to_affine %s' % E(c), 'el.into_affine %s' % E(c), 'af.to_element %s' % Af(pyref.aff(c)), 'af.into_group %s' % Af(pyref.aff(c)), 'af.clear_cofactor %s' % Af(pyref.aff(c)),
                   'af.mul_by_cofactor_to_group %s' % Af(pyref.aff(c))]
-    # batches: both representatives of the identity (also rescaled, Z != 1) at every position among points with Z != 1
-    d = (pool.derived or pool.base)[:4]; lam = ctx.rng.below(Q - 2) + 2
-    batches = [[T2REP] + d[:2], [d[0], rescale(T2REP, lam), d[1 % len(d)]], [IDENT] + d[:2], [d[0], rescale(IDENT, lam), d[1 % len(d)]], d[:2] + [T2REP],
-               [T2REP, IDENT, d[0]], [rescale(T2REP, lam)] + [rescale(c, lam) for c in d[:2]]]
+    batches = pool.batches(ctx.rng)
     for l in batches:
         lines.append('el.normalize_batch %s' % ';'.join(E(c) for c in l)); lines.append('el.batch_convert_to_mul_base %s' % ';'.join(E(c) for c in l))
     for n in (0, 1, 3, 5):
